@@ -334,7 +334,10 @@ var procsJumpTable = distsys.MakeMPCalJumpTable(
 			s.appendOut(num(0), s.rd("Lend.dw"), s.rd("Lend.da"))
 			return s.iface.Return()
 		}
-		return s.iface.Call("Borrow", "Lend.d2", str("Lend.da"), str("Lend.dw"), s.rd("Lend.dn"), s.rd("Lend.dt"))
+		if eq(tla.ModulePercentSymbol(s.rd("Lend.dn"), num(2)), num(1)) {
+			return s.iface.Call("Borrow", "Lend.d2", str("Lend.da"), str("Lend.dw"), s.rd("Lend.dn"), s.rd("Lend.dt"))
+		}
+		return s.iface.Call("Borrow", "Lend.d2", str("Lend.dw"), str("Lend.da"), s.rd("Lend.dn"), s.rd("Lend.dt"))
 	}),
 	section("Lend.d2", func(s sx) error {
 		s.appendOut(s.rd("Lend.dn"), s.rd("Lend.dw"), s.rd("Lend.da"))
